@@ -106,6 +106,38 @@ theorem derive_complete (o : Opts) (L : Lookups) (a : Ann) (packed : Bool) (n : 
   refine ⟨by rcases hpk with h | h <;> simp [h], ?_⟩
   cases t <;> simp only [gate] at hg ⊢ <;> simp_all
 
+/-- a trait is listed at most once (a repeated trait in `#[derive(..)]` is a rustc error) -/
+theorem derives_nodup (o : Opts) (L : Lookups) (a : Ann) (packed : Bool) (n : Nat) :
+    (derivesOfItem o L a packed n).Nodup := by
+  unfold derivesOfItem
+  cases (gate o L n .copy && !a.noCopy) <;> cases packed <;>
+    cases (gate o L n .debug && !a.noDebug) <;> cases (gate o L n .default && !a.noDefault) <;>
+    cases gate o L n .hash <;> cases gate o L n .partialOrd <;> cases gate o L n .ord <;>
+    cases gate o L n .partialEq <;> cases gate o L n .eq <;> decide
+
+/-- **supertraits are present** whenever their option is on: `Eq` comes with `PartialEq`, `Ord` with
+`PartialOrd`, `Eq` and `PartialEq` (rustc rejects `#[derive(Eq)]` without `PartialEq`); the builder
+turns the supertrait options on together with `derive_eq` / `derive_ord` -/
+theorem supertraits_present (o : Opts) (L : Lookups) (a : Ann) (packed : Bool) (n : Nat) :
+    (Trait.eq ∈ derivesOfItem o L a packed n → o.derivePartialeq = true →
+      Trait.partialEq ∈ derivesOfItem o L a packed n) ∧
+    (Trait.ord ∈ derivesOfItem o L a packed n → o.derivePartialord = true →
+      Trait.partialOrd ∈ derivesOfItem o L a packed n) ∧
+    (Trait.ord ∈ derivesOfItem o L a packed n → o.deriveEq = true →
+      Trait.eq ∈ derivesOfItem o L a packed n) := by
+  refine ⟨?_, ?_, ?_⟩ <;> intro h ho <;>
+    have := (mem_derivesOfItem o L a packed n _).mp h <;>
+    rw [mem_derivesOfItem] <;> simp_all [gate]
+
+/-- `Copy` and `Debug`/`Default` exclusions by annotation remove exactly that trait (and `Clone`
+with `Copy`) from a type that is not packed: every other trait is decided as without the annotation -/
+theorem annotation_removes_only_its_trait (o : Opts) (L : Lookups) (a : Ann) (n : Nat) (t : Trait)
+    (ht : t ≠ .copy ∧ t ≠ .clone ∧ t ≠ .debug ∧ t ≠ .default) :
+    t ∈ derivesOfItem o L a false n ↔ t ∈ derivesOfItem o L {} false n := by
+  rw [mem_derivesOfItem, mem_derivesOfItem]
+  obtain ⟨h1, h2, h3, h4⟩ := ht
+  cases t <;> simp_all
+
 theorem clone_iff_copy (o : Opts) (L : Lookups) (a : Ann) (packed : Bool) (n : Nat) :
     Trait.clone ∈ derivesOfItem o L a packed n ↔ Trait.copy ∈ derivesOfItem o L a packed n := by
   rw [mem_derivesOfItem, mem_derivesOfItem]
